@@ -36,18 +36,19 @@ def go2coq(c, sub, outname, *args):
     return ok
 
 
-def prepare(c, props):
-    """go2coq the four tables, compile them, install and compile Inst_Walker.v and the props file(s).
-    Returns True when everything compiled."""
+def prepare(c, props, extra_gen=(), extra_tmpl=()):
+    """go2coq the four tables, compile them (plus already generated extra_gen files), install and compile
+    Inst_Walker.v and the props / instance templates. Returns True when everything compiled."""
     ok = True
     for sub, out in GEN_FILES:
         ok = go2coq(c, sub, out) and ok
     if not ok:
         return False
-    if not c.coq_compile([out for _, out in GEN_FILES]):
+    if not c.coq_compile([out for _, out in GEN_FILES] + list(extra_gen)):
         return False
-    c.install_tmpl("Walker/Inst_Walker.v", *props)
-    return c.coq_compile(["Inst_Walker.v"] + [os.path.basename(p) for p in props])
+    tm = list(props) + list(extra_tmpl)
+    c.install_tmpl("Walker/Inst_Walker.v", *tm)
+    return c.coq_compile(["Inst_Walker.v"] + [os.path.basename(p) for p in tm])
 
 
 def name_tables(c):
